@@ -206,7 +206,7 @@ func (r *Run) Violation(sig string, detail string, replay interface{}) {
 		fmt.Printf("stopping after 25 distinct violations\n")
 		defer func() { go r.Finish() }()
 	}
-	dir := filepath.Join(VerifRoot(), "replays", r.Prop)
+	dir := filepath.Join(OutRoot(), "replays", r.Prop)
 	os.MkdirAll(dir, 0o755)
 	name := sanitize(sig)
 	if len(name) > 80 {
@@ -291,7 +291,7 @@ func (r *Run) Finish() {
 	if err != nil {
 		Infra("evidence: %v", err)
 	}
-	dir := filepath.Join(VerifRoot(), "evidence")
+	dir := filepath.Join(OutRoot(), "evidence")
 	os.MkdirAll(dir, 0o755)
 	if err := os.WriteFile(filepath.Join(dir, r.Prop+".json"), append(b, '\n'), 0o644); err != nil {
 		Infra("evidence: %v", err)
@@ -331,4 +331,13 @@ func Parallel(n, w int, f func(i int)) {
 	}
 	close(ch)
 	wg.Wait()
+}
+
+// OutRoot is where evidence/ and replays/ are written: the verification tree, unless VERIF_OUT names another directory
+// (bin/selftest points it at a scratch directory so that runs against seeded changes never touch the committed evidence).
+func OutRoot() string {
+	if d := os.Getenv("VERIF_OUT"); d != "" {
+		return d
+	}
+	return VerifRoot()
 }
